@@ -60,7 +60,7 @@ type DriverResult struct {
 	MaxDepth     int            `json:"max_depth"`
 	TraceShapes  int            `json:"trace_shapes"`
 	Samples      []PathSample   `json:"samples,omitempty"`
-	FootprintBad []string       `json:"footprint_conflicts,omitempty"`
+	TrackedCells int            `json:"tracked_cells"`
 }
 
 type Limits struct {
@@ -305,9 +305,7 @@ func (w *Worker) runDriver(spec *DriverSpec) (res DriverResult) {
 		if w.sample != nil {
 			res.Samples = append(res.Samples, *w.sample)
 		}
-		if w.m.actor != 0 || len(m.tracked) > 0 {
-			res.FootprintBad = append(res.FootprintBad, m.footprintConflicts()...)
-		}
+		res.TrackedCells += len(m.tracked)
 	}
 	switch {
 	case len(res.Failures) > 0:
